@@ -184,6 +184,17 @@ def reference_resolution_rule(ctx, prop, rid):
                     forms.append(("after two indexed-repeat() calls", f"{ir_} + {ir2_} + ${{T}}", lambda o: o.split(") + ")[-1].strip() == path))
                     forms.append(("between two indexed-repeat() calls", f"{ir_} + ${{T}} + {ir2_}", lambda o: o.split(") + ")[1].split(" + indexed-repeat(")[0].strip() == path))
                     forms.append(("before two indexed-repeat() calls", f"${{T}} + {ir_} + {ir2_}", lambda o: o.split(" + indexed-repeat(")[0].strip() == path))
+                    # indexed-repeat() inside a predicate over a secondary instance: its relative (index) argument is still
+                    # evaluated inside the predicate, so it needs current() like any other relative reference there
+                    it.reset([])
+                    try:
+                        self_path = it.call_function(ix, [survey, "${" + ref.name + "}", ref], {}, None, ix.node).strip()
+                    except Raised:
+                        self_path = None
+                    if self_path and not self_path.startswith("/") and ref.name not in amb:
+                        forms.append(("indexed-repeat() index argument inside a secondary-instance predicate",
+                                      f"instance('ch')/root/item[name = {ir_[:-2]}${{{ref.name}}} - 1)]/label",
+                                      lambda o, self_path=self_path: o.rsplit(",", 1)[-1].split(" - 1)")[0].strip() == "current()/" + self_path))
                     forms.append(("last-saved next to indexed-repeat()", "indexed-repeat(${T}, ${R}, 1) + ${last-saved#T}".replace("${R}", "${" + rep_t.name + "}"),
                                   lambda o: o.split(") + ")[-1].strip() == f"instance('__last-saved'){abs_path}"))
                 for fname, tmpl, good in forms:
@@ -602,6 +613,15 @@ def run(ctx):
             r4.check(cxt == "self" or acc is not None, f"{fi.qualname}:{call_name(c)}({norm(c.args[0])[:30] if c.args else ''}, context={cxt})",
                      f"accepted: {acc}" if acc else "references in an element's cell are resolved from that element", fi.loc(c),
                      why_fail=f"context `{cxt}`: a relative path computed from another node reaches a different node (or is absolute where it must be relative)")
+    # the context recorded with a registered itext message (shared with C07.R2b): the owning element
+    from . import c07 as _c07
+    src7 = next((r_ for r_ in _c07.run(ctx) if r_.rid == "C07.R2b"), None)
+    for o in (src7.obligations if src7 is not None else []):
+        if o["construct"].endswith("output context"):
+            o2 = dict(o)
+            o2["rule"] = "C03.R4"
+            o2["shared_with"] = "C07.R2b"
+            r4.obligations.append(o2)
     r4.check(n_ctx >= 15, "substitution contexts census", f"{n_ctx} substitution calls in element methods examined", "pyxform/")
     rules.append(r4)
     rules.append(_relation_rule(ctx))
